@@ -131,7 +131,7 @@ def reference_draw(rec, data, block, kind, knobs, others, start, tape, n_steps):
         if block == "d" and shape == "x_d_reg":
             return gamma_steps(tape, np.count_nonzero(v("x")) / 2 + 1.0, 0.5 * np.sum(v("x") ** 2) + 0.1, n_steps)
     if kind == "ConjugateApprox" and block == "d" and shape == "x_d_lmrf":
-        Dx = D_zero(n) @ v("x")
+        Dx = D_zero(n) @ (v("x") - data.get("lmrf_loc", 0.0))      # the field enters the prior through x - location
         return gamma_steps(tape, n + 1.0, float(np.sum(Dx ** 2 / np.sqrt(Dx ** 2 + 1e-5))) + 0.1, n_steps)
     if kind == "Direct" and block == "w" and shape == "x_s_w":
         # w ~ N(0, 0.7 I_2) independent of everything else: mean + e / sqrt-precision
